@@ -15,7 +15,7 @@ def _c15_out_kind(o):
 
 
 PROPS["C15"] = dict(
-    level_text="Theorems (Props/C15.lean) prove, for every history of inserts and maintenance steps of any length over unbounded tokens: the tablet list stays sorted with prev.last < next.first and first <= last (so the standard library's binary search - modelled loop by loop - is applied to a partitioned list: its precondition is a lemma, not an assumption); tablet_for_token answers exactly the latest insert covering the token unless a later insert overlapped it or maintenance discarded it (refinement to a history-based spec; never a stale answer); an insert removes exactly the overlapping tablets; per-datacenter replicas are the order-preserving filter of the full replica list; an accepted payload (a, b] becomes [a+1, b] with a < b and is rejected iff b <= a. The table-level theorems are lifted to the TabletsInfo level (every table of the map is the run of its own valid sub-history: gate on removed/recreated/has_unknown_replicas, dropped tables, empty entries) and to the ClusterState level: for every history of learnt tablets and metadata refreshes (old peers -> new peers with arbitrary overlap, hosts replaced in one refresh, Node objects re-created) every replica answered by any lookup is a host of the new known_nodes and the Node object registered there, and tablets untouched by the refresh are preserved. The models are tied to tablets.rs and cluster/state.rs by a differential run (exhaustive histories over a 6-token universe, long random histories over full i64, maintenance, TabletsInfo, refresh histories on the real ClusterState, payload bytes) with a brute-force history shadow as oracle.",
+    level_text="Theorems (Props/C15.lean) prove, for every history of inserts and maintenance steps of any length over unbounded tokens: the tablet list stays sorted with prev.last < next.first and first <= last (so the standard library's binary search - modelled loop by loop - is applied to a partitioned list: its precondition is a lemma, not an assumption); tablet_for_token answers exactly the latest insert covering the token unless a later insert overlapped it or maintenance discarded it (refinement to a history-based spec; never a stale answer); an insert removes exactly the overlapping tablets; per-datacenter replicas are the order-preserving filter of the full replica list; an accepted payload (a, b] becomes [a+1, b] with a < b and is rejected iff b <= a. The table-level theorems are lifted to the TabletsInfo level (every table of the map is the run of its own valid sub-history: gate on removed/recreated/has_unknown_replicas, dropped tables, empty entries) and to the ClusterState level: for every history of learnt tablets and metadata refreshes (old peers -> new peers with arbitrary overlap, hosts replaced in one refresh, Node objects re-created) every replica answered by any lookup is a host of the new known_nodes and the Node object registered there, and tablets untouched by the refresh are preserved; one update_tablets call with a whole batch is the sequence of its single learns in order (learn_batch_eq_foldl, brun_eq_crun: latest wins inside a batch). The models are tied to tablets.rs and cluster/state.rs by a differential run (exhaustive histories over a 6-token universe, long random histories over full i64, maintenance, TabletsInfo, refresh histories on the real ClusterState, payload bytes) with a brute-force history shadow as oracle.",
     level_note="Trusted: Lean kernel + {propext, Classical.choice, Quot.sound}; hand-written models Model/Tablets.lean, Model/TabletsRefresh.lean (tie = differential harness through the cfg(scylla_verif) pass-throughs VerifTablets / raw_tablet_from_payload / cluster_from_topology_with_tablets / cluster_refresh / ClusterState::verif_update_tablets); Arc<Node> identity modelled by a generation counter; HashMaps as association lists (only looked up by key, dumps sorted).",
     lean_modules=["ScyllaVerif.Props.C15"],
     rule="case = one history (tab), one refresh history on a ClusterState (cs), one payload cell (payload) or one exhaustive subtree (exh); distinct case lines whose implementation output contains at least one answered lookup / non-empty dump / accepted-or-rejected payload / visited history count as non-trivial",
@@ -23,7 +23,7 @@ PROPS["C15"] = dict(
     out_kind=_c15_out_kind,
     trusted=[
         "Model/Tablets.lean transcribes tablets.rs:66-122 (payload), 135-169, 252-324, 369-469, 523-538, 598-662 and core::slice::binary_search_by/partition_point of the toolchain's std (1.95: fixed-iteration base/size loop)",
-        "Model/TabletsRefresh.lean transcribes cluster/state.rs:273-341 (calculate_new_topology: which Node objects are kept / re-created), 375-406 (perform_tablets_maintenance: removed and re-created hosts from old vs new known_nodes), 205-270 (new / new_updated), 647-675 (update_tablets and its translator over known_nodes)",
+        "Model/TabletsRefresh.lean transcribes cluster/state.rs:273-341 (calculate_new_topology: which Node objects are kept / re-created), 375-406 (perform_tablets_maintenance: removed and re-created hosts from old vs new known_nodes), 205-270 (new / new_updated), 647-675 (update_tablets: the loop over ONE batch in order, translator over known_nodes built once)",
         "the hook's nodes are pool-less and rejected by the host filter, so only the `(false, _)` arms of calculate_new_topology's match are driven against the code (the enabled arms are modelled and covered by the theorems, not by the differential run); a node's address is its position in the peer list",
         "Vec::drain(left..right) with left > right panics before mutating (only reachable with an ill-formed tablet first > last, which from_custom_payload never produces); the model's add returns `none` there and the driver prints `panic`",
     ],
